@@ -28,7 +28,7 @@ LEVEL = "fault_enumeration"
 RULE = (
     "Two real endpoints over the simulated link, the restarted one (client or server) with a file-backed journal. Histories "
     "(Hypothesis, <=30 actions quick / <=80 thorough, plus fixed ones) of: application sends either way, delivery of single "
-    "frames, keep-alive probes (TestRequest / Heartbeat), application handlers that call disconnect() from inside on_message, connection breaks (also a drain that fails after the frame was written) and reconnects (so that gaps, ResendRequests, replays and gap fills spanning several numbers "
+    "frames (singly, or a burst of 45 coalesced into 4096-byte reads and killed in the middle), keep-alive probes (TestRequest / Heartbeat), application handlers that call disconnect() from inside on_message, connection breaks (also a drain that fails after the frame was written) and reconnects (so that gaps, ResendRequests, replays and gap fills spanning several numbers "
     "occur), graceful restarts at idle points, and kills at a crash point of an operation of the restarted endpoint (a send, or "
     "the processing of one inbound frame). For 30 fixed histories EVERY crash point of the chosen operation is taken "
     "(exhaustive kill-point enumeration); generated histories draw the point. Oracle: (a) graceful: the new object's "
@@ -185,6 +185,13 @@ class Runner:
             if op[0] == "send":
                 r, pid = d.send(side)
                 self.flags.add("kill-in-send")
+            elif op[0] == "deliver_all":
+                # everything in flight arrives coalesced (reads of up to 4096 bytes): a burst processed frame after frame
+                frm = d.other(side)
+                rec.burst = [ref_get(ref_parse(x), 11) for x in d.w.link.fifo[frm] if x is not EOF]
+                rec.app0 = len(ep.app_msgs)
+                d.deliver_all(frm)
+                self.flags.add("kill-in-burst")
             else:
                 frm = d.other(side)
                 item = d.w.link.fifo[frm][0]
@@ -227,6 +234,14 @@ class Runner:
             d.maybe[side].add(rec.pid)
         if rec.inflight:
             self.maybe_dup.add(rec.inflight)
+        if getattr(rec, "burst", None):
+            # of a burst, only the frame in progress at the kill (handed to the application, not yet journaled - or the next
+            # one) may legitimately be seen again by the restarted application
+            done = [x for x in rec.burst if x is not None]
+            i = p["app"] - rec.app0
+            for j in (i - 1, i):
+                if 0 <= j < len(done):
+                    self.maybe_dup.add(done[j])
         # frames that left: those in the (truncated) FIFO history -> count via written list up to the number recorded
         if link is not None:
             wr = link.writers[side].written
@@ -305,7 +320,8 @@ def run_history(acc, side, actions, origin, kill_all=None):
     try:
         npoints = _run_once(acc, side, actions, origin, tmp, None if kill_all is None else (kill_all, 0))
         if kill_all is not None and npoints:
-            for k in range(1, npoints):
+            stride = 1 if npoints <= 60 else 7  # a burst has hundreds of crash points: every 7th (all residues of the per-frame cycle over the frames)
+            for k in range(1, npoints, stride):
                 _run_once(acc, side, actions, origin, tmp, (kill_all, k))
     finally:
         shutil.rmtree(tmp, ignore_errors=True)
@@ -353,7 +369,7 @@ def _run_once(acc, side, actions, origin, tmp, forced):
                     no_resend_expected_from = len(d.w.links)
             elif k == "kill":
                 op = a[1]
-                if op == "deliver" and not d.can_deliver(d.other(side)):
+                if op in ("deliver", "deliver_all") and not d.can_deliver(d.other(side)):
                     continue
                 if op == "send" and d.w.link is None:
                     continue
@@ -426,6 +442,8 @@ def fixed_histories():
         H.append((side, base + [("send", side), ("send", side), ("break", "reset"), ("reconnect",), ("deliver", "c"), ("deliver", "s"), ("deliver", "c"), ("kill", "deliver", 0)]))
         H.append((side, [("kill", "deliver", 0)]))  # the very first Logon / Logon reply
         H.append((side, base + [("graceful",)]))
+        # a burst larger than one read (45 messages, > 4096 bytes) processed in one go; the process dies in the middle of it
+        H.append((side, base + [("send", o)] * 45 + [("kill", "deliver_all", 0)]))
         # the application ends the connection from inside on_message, then the endpoint is restarted
         H.append((side, base + [("send", o), ("armd", side), ("deliver", o), ("graceful",)]))
         H.append((side, base + [("send", o), ("send", o), ("armd", side), ("deliver", o), ("reconnect",), ("deliver", "c"), ("deliver", "s"), ("graceful",)]))
